@@ -8,8 +8,8 @@
 (* recorded observation.                                                   *)
 (*                                                                         *)
 (* Format : "msgpack" | "cbor" | "bencode" | "bson"                        *)
-(* Part   : "atoms"  every boundary scalar, all encodings (cbor: up to 2   *)
-(*                   chunks + empty chunks for indefinite strings)         *)
+(* Part   : "all" = both of: "atoms"  every boundary scalar, all encodings (cbor: up to 2   *)
+(*                   chunks for indefinite strings, + empty chunks if Wide)*)
 (*          "nested" containers of depth 1 and 2 over a small atom set,    *)
 (*                   all encodings of every part (cbor: strings inside are *)
 (*                   definite length except in the IndefNested values)     *)
@@ -20,7 +20,7 @@ EXTENDS WireBytes, Json
 CONSTANTS Format, Part, Wide
 
 MP  == INSTANCE Wire_msgpack
-CBa == INSTANCE Wire_cbor WITH MaxChunks <- 2, EmptyChunks <- TRUE
+CBa == INSTANCE Wire_cbor WITH MaxChunks <- 2, EmptyChunks <- Wide
 CBn == INSTANCE Wire_cbor WITH MaxChunks <- 0, EmptyChunks <- FALSE
 BC  == INSTANCE Wire_bencode
 BS  == INSTANCE Wire_bson
@@ -115,20 +115,20 @@ BsonSpecials ==
 InBsonStr(v) == RLen(v.s) <= 65536
 Doc1(v) == Map(<<KA>>, <<v>>)
 
-Universe ==
+Universe(P) ==
     CASE Format = "msgpack" ->
-           IF Part = "atoms" THEN Scalars \cup {v \in IntsAll : InMsgpack(v)} \cup Strs \cup Bins \cup Floats \cup Exts
+           IF P = "atoms" THEN Scalars \cup {v \in IntsAll : InMsgpack(v)} \cup Strs \cup Bins \cup Floats \cup Exts
                                   \cup Counts({8, 16, 255, 256} \cup (IF Wide THEN {65535, 65536} ELSE {}))
            ELSE D1(Small) \cup D1x \cup D2 \cup {Arr(<<Bin(<<104, 105>>), F64(<<63, 248, 0, 0, 0, 0, 0, 0>>)>>)}
       [] Format = "cbor" ->
-           IF Part = "atoms" THEN Scalars \cup {Undef} \cup {v \in IntsAll : InCbor(v)} \cup Strs \cup Bins \cup Floats
+           IF P = "atoms" THEN Scalars \cup {Undef} \cup {v \in IntsAll : InCbor(v)} \cup Strs \cup Bins \cup Floats
                                   \cup {Tag(<<1>>, IntV(FALSE, <<1>>)), Tag(<<217, 247>>, Str(<<97>>)), Tag(<<24>>, Bin(<<1>>)),
                                         Tag(F(8), Null), Tag(<<1>>, Tag(<<2>>, Null))}
            ELSE D1(Small) \cup D1x \cup D2 \cup IndefNested \cup Counts({8, 23, 24, 255, 256} \cup (IF Wide THEN {65535, 65536} ELSE {}))
                 \cup {Arr(<<Bin(<<104, 105>>), F64(<<63, 248, 0, 0, 0, 0, 0, 0>>)>>), Arr(<<Tag(<<1>>, IntV(FALSE, <<1>>)), Null>>),
                       Tag(<<1>>, Arr(<<IntV(FALSE, <<1>>)>>)), Map(<<KA>>, <<Tag(<<1>>, Null)>>)}
       [] Format = "bencode" ->
-           IF Part = "atoms" THEN {v \in IntsAll : BC!InDomain(v)} \cup Strs
+           IF P = "atoms" THEN {v \in IntsAll : BC!InDomain(v)} \cup Strs
            ELSE D1({IntV(FALSE, <<1>>), IntV(TRUE, <<1>>), Str(<<97>>), Str(<<>>)})
                 \cup {Map(<<KA, KB>>, v) : v \in Seqs({IntV(FALSE, <<1>>), Str(<<97>>)}, 2)}
                 \cup {Map(<<KE>>, <<Str(<<>>)>>), Map(<<<<>>>>, <<Arr(<<>>)>>)}
@@ -137,7 +137,7 @@ Universe ==
                 \cup {Arr(<<x, y>>) : x, y \in {Arr(<<>>), Map(<<>>, <<>>), Arr(<<IntV(FALSE, <<>>)>>), Map(<<KA>>, <<Str(<<97>>)>>)}}
                 \cup {Arr(<<Arr(<<Arr(<<>>)>>)>>), Arr([i \in 1..17 |-> IntV(FALSE, <<i>>)])}
       [] Format = "bson" ->
-           IF Part = "atoms" THEN {Doc1(v) : v \in Scalars \cup {v \in IntsAll : SFits(v, 8)} \cup {s \in Strs : InBsonStr(s)}
+           IF P = "atoms" THEN {Doc1(v) : v \in Scalars \cup {v \in IntsAll : SFits(v, 8)} \cup {s \in Strs : InBsonStr(s)}
                                                     \cup {F64(b) : b \in F64s} \cup BsonSpecials}
                                   \cup {Map(<<>>, <<>>), Map(<<KE>>, <<Null>>), Map(<<Rep(300, X)>>, <<Bool(TRUE)>>)}
            ELSE {Doc1(x) : x \in D1(Small)} \cup {Doc1(x) : x \in D2} \cup {Map(<<KA, KB>>, v) : v \in Seqs(Small, 2)}
@@ -145,9 +145,9 @@ Universe ==
                 \cup {Doc1(Arr([i \in 1..11 |-> IntV(FALSE, <<i>>)])), Doc1(Arr(<<Bx("undef"), Bx("minkey")>>)),
                       Doc1(Map(<<KA>>, <<[t |-> "bson", ty |-> "binary", sub |-> 0, x |-> <<104, 105>>]>>))}
 
-EncOf(v) ==
+EncOf(P, v) ==
     CASE Format = "msgpack" -> MP!Enc(v)
-      [] Format = "cbor"    -> IF Part = "atoms" \/ v \in IndefNested THEN CBa!Enc(v) ELSE CBn!Enc(v)
+      [] Format = "cbor"    -> IF P = "atoms" \/ v \in IndefNested THEN CBa!Enc(v) ELSE CBn!Enc(v)
       [] Format = "bencode" -> BC!Enc(v)
       [] Format = "bson"    -> BS!Enc(v)
 ReprOf(v) ==
@@ -156,29 +156,31 @@ ReprOf(v) ==
       [] Format = "bencode" -> BC!Repr(v)
       [] Format = "bson"    -> BS!Repr(v)
 
-Big == CASE Format = "msgpack" /\ Part = "atoms" -> BigVals({7, 15, 16})
-         [] Format = "cbor" /\ Part = "atoms" -> BigVals({7, 23, 24})
-         [] OTHER -> {}
+Big(P) == CASE Format = "msgpack" /\ P = "atoms" -> BigVals({7, 15, 16})
+            [] Format = "cbor" /\ P = "atoms" -> BigVals({7, 23, 24})
+            [] OTHER -> {}
 EncOuterOf(v) == IF Format = "msgpack" THEN MP!EncOuter(v) ELSE CBa!EncOuter(v)
 \* EncOuter is a subset of Enc (checked where Enc is enumerable)
 ASSUME \A v \in D1({Null, One}) : MP!EncOuter(v) \subseteq MP!Enc(v) /\ CBn!EncOuter(v) \subseteq CBn!Enc(v)
 
 \* inputs that are outside fq's domain and must be REPORTED, not mis-decoded
-Rejects == IF Format = "bencode" /\ Part = "atoms"
+Rejects(P) == IF Format = "bencode" /\ P = "atoms"
            THEN UNION {{[val |-> v, bytes |-> e] : e \in BC!Enc(v)} :
                           v \in {IntV(FALSE, <<128>> \o Zeros(7)), IntV(FALSE, F(8)), IntV(TRUE, <<128>> \o Zeros(6) \o <<1>>)}}
            ELSE {}
 
 \* truncation points (lengths of the proper prefixes to try) and trailing data
 Cuts(n) == IF n <= 48 THEN 0..(n - 1) ELSE (0..12) \cup {n \div 2} \cup ((n - 3)..(n - 1))
-Trails(v, e) == IF Part = "atoms" /\ v.t # "nulls" THEN {<<0>>, <<255, 255>>, <<e[1]>>} ELSE {<<e[1]>>}
+Trails(P, v, e) == IF P = "atoms" /\ v.t # "nulls" THEN {<<0>>, <<255, 255>>, <<e[1]>>} ELSE {<<e[1]>>}
 
+Parts == IF Part = "all" THEN {"atoms", "nested"} ELSE {Part}
 VARIABLE c
-Init == \/ \E v \in Universe : \E e \in EncOf(v) : c = [kind |-> "ok", val |-> v, bytes |-> e]
-        \/ \E v \in Big : \E e \in EncOuterOf(v) : c = [kind |-> "ok", val |-> v, bytes |-> e]
-        \/ \E r \in Rejects : c = [kind |-> "reject", val |-> r.val, bytes |-> r.bytes]
+Init == \E P \in Parts :
+        \/ \E v \in Universe(P) : \E e \in EncOf(P, v) : c = [part |-> P, kind |-> "ok", val |-> v, bytes |-> e]
+        \/ \E v \in Big(P) : \E e \in EncOuterOf(v) : c = [part |-> P, kind |-> "ok", val |-> v, bytes |-> e]
+        \/ \E r \in Rejects(P) : c = [part |-> P, kind |-> "reject", val |-> r.val, bytes |-> r.bytes]
 Next == FALSE /\ c' = c
 Spec == Init /\ [][Next]_c
-Emit == PrintT(ToJson([f |-> Format, part |-> Part, kind |-> c.kind, val |-> c.val, bytes |-> c.bytes,
-                       repr |-> ReprOf(c.val), cuts |-> Cuts(RLen(c.bytes)), trails |-> Trails(c.val, c.bytes)]))
+Emit == PrintT(ToJson([f |-> Format, part |-> c.part, kind |-> c.kind, val |-> c.val, bytes |-> c.bytes,
+                       repr |-> ReprOf(c.val), cuts |-> Cuts(RLen(c.bytes)), trails |-> Trails(c.part, c.val, c.bytes)]))
 =============================================================================
